@@ -349,12 +349,20 @@ def c13_tables(tier, res):
             if any(parts[1]) and (not parts[0][0] or parts[0][1] != 0):
                 res['w'].append(dict(msg='C13 %s* -> %s* is copied with memcpy although the conversion adjusts the address by %d (%s %s)' % (names[0], names[1], parts[0][1], cxx, std),
                                      op='memcpy table', config=cxx + std, case=[], impl=''))
+        for names, parts in rows.get('K', []):
+            n += 1
+            cats = ('a prvalue', 'a non-const lvalue', 'a const lvalue')
+            for i in range(6):
+                if parts[0][i] and not parts[1][i]:
+                    res['w'].append(dict(msg='C13 %s: %s from %s is done with memcpy, but the %s the language selects for that argument does not leave the source\'s bytes (%s %s)'
+                                         % (names[0], 'construction' if i < 3 else 'assignment', cats[i % 3], 'constructor' if i < 3 else 'assignment operator', cxx, std),
+                                         op='memcpy table (class types)', config=cxx + std, case=[], impl=''))
         for names, parts in rows['I']:
             n += 1
             if parts[0][0] and not parts[0][1]:
                 res['w'].append(dict(msg='C13 iterator %s is classified contiguous for %s but does not address contiguous storage (%s %s)' % (names[1], names[0], cxx, std),
                                      op='memcpy table', config=cxx + std, case=[], impl=''))
-        key = (rows['V'], rows['P'])
+        key = (rows['V'], rows['P'], rows.get('K', []))
         if base is None:
             base = (key, cxx, std)
         elif key != base[0]:
